@@ -3,18 +3,30 @@
 seeded change (/verif/seeded/<ID>-<x>/patch.diff applied to /repo, then reverted) and record the
 outcome in seeded/RESULTS.json and the seed's meta.json."""
 import json, os, subprocess, sys, glob
-args = sys.argv[1:]; tier = 'quick'; only = []
+from concurrent.futures import ThreadPoolExecutor
+args = sys.argv[1:]; tier = 'quick'; only = []; use_eval = False; jobs = 1
 while args:
     a = args.pop(0)
     if a == '--tier': tier = args.pop(0)
+    elif a == '--eval': use_eval = True   # tools/eval_patch.sh: patched scratch copy, /repo untouched, may run in parallel
+    elif a == '-j': jobs = int(args.pop(0))
     else: only.append(a)
 respath = '/verif/seeded/RESULTS.json'
 prev = {r['seed']: r for r in json.load(open(respath))}
+def one(d):
+    name = os.path.basename(d); pid = name.split('-')[0]
+    tool = 'eval_patch.sh' if use_eval else 'try_patch.sh'
+    env = dict(os.environ)
+    if use_eval and jobs > 1: env['EVAL_WORKERS'] = str(max(2, 16 // jobs))
+    p = subprocess.run(f'/verif/tools/{tool} {d}/patch.diff {pid} {tier}', shell=True, cwd='/verif', capture_output=True, text=True, timeout=6*3600, env=env)
+    return name, pid, d, p.stdout + p.stderr
+todo = []
 for d in sorted(glob.glob('/verif/seeded/C*-[a-z]')):
     name = os.path.basename(d); pid = name.split('-')[0]
     if only and name not in only and pid not in only: continue
-    p = subprocess.run(f'/verif/tools/try_patch.sh {d}/patch.diff {pid} {tier}', shell=True, cwd='/verif', capture_output=True, text=True, timeout=6*3600)
-    o = p.stdout + p.stderr
+    todo.append(d)
+with ThreadPoolExecutor(max_workers=jobs if use_eval else 1) as ex:
+  for name, pid, d, o in ex.map(one, todo):
     lines = [l for l in o.splitlines() if l.startswith(('VIOLATION', 'violation', 'HARNESS', 'done', 'PATCH', 'repo dirty'))]
     det = any(l.startswith('VIOLATION') for l in lines)
     r = prev.get(name, {'seed': name, 'property': pid})
@@ -25,7 +37,7 @@ for d in sorted(glob.glob('/verif/seeded/C*-[a-z]')):
     mp = f'{d}/meta.json'
     m = json.load(open(mp))
     m['detected_by_' + tier] = det
-    m['check_cmd' if tier == 'quick' else 'check_cmd_' + tier] = f'./check {pid} {tier} (with the patch applied to /repo, then reverted)'
+    m['check_cmd' if tier == 'quick' else 'check_cmd_' + tier] = f'./check {pid} {tier} (with the patch applied to a copy of /repo)'
     m['check_output' if tier == 'quick' else 'check_output_' + tier] = lines[:4]
     json.dump(m, open(mp, 'w'), indent=1)
     print(name, 'DETECTED' if det else 'MISSED', (fc[0][:200] if fc else [l for l in lines if not l.startswith('done')][:1]), flush=True)
